@@ -295,6 +295,9 @@ class Interp(EngineBase):
             ca = self.spec.class_attrs.get(base.name, {})
             if attr in ca:
                 return ca[attr]
+            cconst = getattr(self.src, 'class_consts', {}).get(base.name, {})
+            if attr in cconst and base.name not in ENUMS.enums:
+                return self.ev(cconst[attr])
             return BoundMethod(base, attr)
         if isinstance(base, EnvV):
             if attr == 'now':
